@@ -49,6 +49,8 @@ type c08Case struct {
 	Extra       bool       `json:"explicit_field_lists"` // signer configured with explicit oversign_fields/sign_fields incl. repeated fields
 	EAI         bool       `json:"smtputf8"`
 	Sender      string     `json:"sender"`
+	Domains     []string   `json:"sign_domains"` // as spelled in the signer's configuration; the first one is used for <> and postmaster
+	SignSub     bool       `json:"sign_subdomains"`
 	Fields      []c08Field `json:"fields"`
 	Body        ev.QS      `json:"body"`
 	Restart     bool       `json:"restart"` // the queue is closed after a failed first attempt and re-opened: the header is re-read from the spool
@@ -62,7 +64,7 @@ const c08Selector = "sel"
 var (
 	c08IDN      = "тест.example"
 	c08IDNA, _  = idna.ToASCII(c08IDN)
-	c08Domains  = []string{"example.org", c08IDN}
+	c08DomainSets = [][]string{{"example.org", c08IDN}, {c08IDN, "example.org"}, {c08IDNA, "example.org"}, {"example.org"}, {c08IDN}, {c08IDNA}}
 	c08Oversign = []string{"Subject", "To", "From", "Date", "MIME-Version", "Content-Type", "Content-Transfer-Encoding", "Reply-To", "Message-Id", "References", "Autocrypt", "Openpgp"}
 	c08Sign     = []string{"List-Id", "List-Help", "List-Unsubscribe", "List-Post", "List-Owner", "List-Archive", "Resent-To", "Resent-Sender", "Resent-Message-Id", "Resent-Date", "Resent-From", "Resent-Cc"}
 	// explicit lists used by the `Extra` signers
@@ -78,7 +80,7 @@ var (
 func c08Modifier(c *c08Case) (*moddkim.Modifier, error) {
 	c08Mu.Lock()
 	defer c08Mu.Unlock()
-	key := fmt.Sprintf("%s/%s/%s/%v", c.Algo, c.HeaderCanon, c.BodyCanon, c.Extra)
+	key := fmt.Sprintf("%s/%s/%s/%v/%v/%v", c.Algo, c.HeaderCanon, c.BodyCanon, c.Extra, c.Domains, c.SignSub)
 	if m, ok := c08Mods[key]; ok {
 		return m, nil
 	}
@@ -89,12 +91,13 @@ func c08Modifier(c *c08Case) (*moddkim.Modifier, error) {
 		}
 		c08KeyDir = d
 	}
-	mod, err := moddkim.New("modify.dkim", "verif", nil, append(append([]string{}, c08Domains...), c08Selector))
+	mod, err := moddkim.New("modify.dkim", "verif", nil, append(append([]string{}, c.Domains...), c08Selector))
 	if err != nil {
 		return nil, err
 	}
 	nodes := []config.Node{
-		{Name: "key_path", Args: []string{filepath.Join(c08KeyDir, c.Algo, "{domain}_{selector}.key")}},
+		{Name: "key_path", Args: []string{filepath.Join(c08KeyDir, c08KeySet(c), "{domain}_{selector}.key")}},
+		{Name: "sign_subdomains", Args: []string{map[bool]string{true: "yes", false: "no"}[c.SignSub]}},
 		{Name: "newkey_algo", Args: []string{c.Algo}},
 		{Name: "header_canon", Args: []string{c.HeaderCanon}},
 		{Name: "body_canon", Args: []string{c.BodyCanon}},
@@ -112,6 +115,8 @@ func c08Modifier(c *c08Case) (*moddkim.Modifier, error) {
 // c08TXT is the DNS of the test: the record the signer wrote to the .dns file,
 // published at <selector>._domainkey.<domain>. A U-label query name is
 // converted to A-labels first (the zone holds A-labels).
+func c08KeySet(c *c08Case) string { return c.Algo + "-" + strings.Join(c.Domains, "+") }
+
 func c08TXT(algo string, ulabel *bool) func(string) ([]string, error) {
 	return func(name string) ([]string, error) {
 		name = strings.TrimSuffix(name, ".")
@@ -125,12 +130,12 @@ func c08TXT(algo string, ulabel *bool) func(string) ([]string, error) {
 			return nil, fmt.Errorf("bad name %q", name)
 		}
 		an = strings.ToLower(an)
-		for _, d := range c08Domains {
+		for _, d := range []string{"example.org", c08IDN, c08IDNA} { // whichever spelling the signer was configured with
 			ad, _ := idna.ToASCII(d)
 			if an == c08Selector+"._domainkey."+ad {
 				b, err := os.ReadFile(filepath.Join(c08KeyDir, algo, d+"_"+c08Selector+".dns"))
 				if err != nil {
-					return nil, err
+					continue
 				}
 				return []string{string(b)}, nil
 			}
@@ -262,13 +267,25 @@ func c08Gen(t *rapid.T) c08Case {
 		Victim:      rapid.IntRange(0, 1000).Draw(t, "victim"),
 		AddAt:       rapid.IntRange(0, 1000).Draw(t, "add_at"),
 	}
-	senders := []string{"user@example.org", "user@EXAMPLE.Org", "user@" + c08IDNA, "User.Name+tag@" + strings.ToUpper(c08IDNA), ""}
-	if c.EAI {
-		senders = append(senders, "user@"+c08IDN, "юзер@"+c08IDN, "юзер@example.org")
+	c.Domains = rapid.SampledFrom(c08DomainSets).Draw(t, "sign_domains")
+	c.SignSub = len(c.Domains) == 1 && rapid.Bool().Draw(t, "sign_subdomains")
+	senders := []string{"", ""} // "postmaster" is not a valid reverse-path on the wire
+	for _, d := range c.Domains {
+		ad, _ := idna.ToASCII(d)
+		senders = append(senders, "user@"+ad, "User.Name+tag@"+strings.ToUpper(ad))
+		if c.EAI {
+			senders = append(senders, "user@"+d, "юзер@"+d)
+		}
+		if c.SignSub {
+			senders = append(senders, "user@sub."+ad, "user@a.b."+ad)
+			if c.EAI {
+				senders = append(senders, "user@sub."+d)
+			}
+		}
 	}
 	c.Sender = rapid.SampledFrom(senders).Draw(t, "sender")
 	fromAddr := c.Sender
-	if fromAddr == "" {
+	if fromAddr == "" || fromAddr == "postmaster" {
 		fromAddr = "mailer-daemon@example.org"
 	}
 	c.Fields = append(c.Fields, c08Field{Name: c08NameCase(t, "From"), Value: ev.QS(rapid.SampledFrom([]string{" ", "", " Some One ", " \"One, Some\"\r\n "}).Draw(t, "fromlead") + "<" + fromAddr + ">")})
@@ -496,7 +513,14 @@ func c08Run(c c08Case) (vs []ev.V) {
 	}
 	st.Close()
 	if !hdr.Has("DKIM-Signature") {
-		return []ev.V{ev.Vf("sign:not-signed", "message from %q (smtputf8=%v) was not signed", c.Sender, c.EAI)}
+		if strings.Contains(c.Sender, "@sub.") || strings.Contains(c.Sender, "@a.b.") {
+			// sign_subdomains matches the sender's domain against the configured one as spelled; a
+			// sub-domain sender in another spelling is left unsigned. The statement speaks about
+			// signed messages only.
+			r.AddExtra("observed_not_asserted_subdomain_sender_left_unsigned", 1)
+			return nil
+		}
+		return []ev.V{ev.Vf("sign:not-signed", "message from %q (smtputf8=%v) was not signed by a signer for %v", c.Sender, c.EAI, c.Domains)}
 	}
 	sigField := hdr.Get("DKIM-Signature")
 	if !c.EAI {
@@ -588,11 +612,11 @@ func c08Run(c c08Case) (vs []ev.V) {
 
 	// --- oracle 1: verifies at the next hop
 	ul := false
-	if v := c08VerifyRaw(got, c.Algo, &ul); v.Err != nil || v.Sigs != 1 {
+	if v := c08VerifyRaw(got, c08KeySet(&c), &ul); v.Err != nil || v.Sigs != 1 {
 		vs = append(vs, ev.Vf(fmt.Sprintf("verify-raw:hc=%s:bc=%s", c.HeaderCanon, c.BodyCanon), "signature does not verify at the next hop (%d signatures): %v\nreceived: %q", v.Sigs, v.Err, got))
 		return vs
 	}
-	if v := c08VerifyMaddy(got, c.Algo, &ul); v.Err != nil || v.Sigs != 1 {
+	if v := c08VerifyMaddy(got, c08KeySet(&c), &ul); v.Err != nil || v.Sigs != 1 {
 		vs = append(vs, ev.Vf(fmt.Sprintf("verify-reparsed:hc=%s:bc=%s", c.HeaderCanon, c.BodyCanon), "signature does not verify after the next hop's header parse/serialise cycle: %v\nreceived: %q", v.Err, got))
 		return vs
 	}
@@ -628,7 +652,7 @@ func c08Run(c c08Case) (vs []ev.V) {
 	}
 	expectFail := func(kind, field string, msg []byte) {
 		var u bool
-		if v := c08VerifyRaw(msg, c.Algo, &u); v.Err == nil {
+		if v := c08VerifyRaw(msg, c08KeySet(&c), &u); v.Err == nil {
 			vs = append(vs, ev.Vf("tamper-undetected:"+kind+":"+strings.ToLower(field), "signature still verifies after %s of signed field %q\ntampered: %q", kind, field, msg))
 		}
 	}
@@ -691,7 +715,8 @@ func c08Info(c c08Case) ev.Info {
 	trailEmpty := strings.HasSuffix(body, "\r\n\r\n") || body == "\r\n"
 	cl := []string{"key=" + c.Algo, "canon=" + c.HeaderCanon + "/" + c.BodyCanon, fmt.Sprintf("restart=%v", c.Restart), fmt.Sprintf("eai=%v", c.EAI)}
 	for k, v := range map[string]bool{"folded_signed_field": folded, "repeated_signed_field": repeated, "8bit": eight, "dot_line": dot, "trailing_ws": trailWS,
-		"trailing_empty_lines": trailEmpty, "empty_body": body == "", "empty_signed_value": emptyVal, "idn_sender": strings.Contains(strings.ToLower(c.Sender), "xn--") || strings.Contains(c.Sender, c08IDN)} {
+		"trailing_empty_lines": trailEmpty, "empty_body": body == "", "empty_signed_value": emptyVal, "idn_sender": strings.Contains(strings.ToLower(c.Sender), "xn--") || strings.Contains(c.Sender, c08IDN),
+		"default_domain_idn": (c.Sender == "" || c.Sender == "postmaster") && c.Domains[0] != "example.org", "sign_subdomains": c.SignSub} {
 		if v {
 			cl = append(cl, k)
 		}
